@@ -357,6 +357,11 @@ Proof.
   apply line_roundtrip; [exact G|]. rewrite line_ok_nl_norm. exact Hl.
 Qed.
 
+(* normalising the line breaks of a written quoted_rfc line = writing the fields with normalised line breaks *)
+Lemma nl_norm_join_line_rfc fl dlm fs : hasnl dlm = false ->
+  nl_norm (join_line_fl fl QuotedRfc dlm fs) = join_line_fl fl QuotedRfc dlm (map nl_norm fs).
+Proof. intros Hd. rewrite !join_line_rfc_render. apply nl_norm_join_render. exact Hd. Qed.
+
 (* a quoted_rfc output line: every line break inside an odd number of quotes, an even number of quotes in all *)
 Lemma nlq_render q f b : (q f = false -> has QT f = false /\ hasnl f = false) -> nlq false (qrender q f ++ b) = nlq false b.
 Proof.
@@ -399,7 +404,7 @@ Proof.
     induction rows as [|r rs IH]; cbn [map] in *; [constructor|]. inversion Hcm as [|? ? Hc Hcs]; subst.
     constructor; [|exact (IH Hcs)]. split; [apply written_rfc_nlq; assumption|exact Hc]. }
   unfold records_of_text. rewrite (lines_of_written_gen ls _ Hls).
-  2:{ eapply Forall_impl; [|exact Hq]. intros W [HW _]. exact (nlq_ecr W false HW). }
+  2:{ eapply Forall_impl; [|exact Hq]. intros W [HW _]. exact (nlq_clean W HW). }
   unfold physical_lines.
   apply (records_of_lines_clean _ c _ (map nl_norm (written fl QuotedRfc dlm rows))).
   - destruct rows as [|r rs]; [reflexivity|]. pose proof (table_ok_bom fl _ _ _ _ _ Hok) as Hb.
@@ -573,3 +578,204 @@ Proof.
   apply table_roundtrip_any; assumption.
 Qed.
 Print Assumptions writer_reader_roundtrip.
+
+(* the Python stream reader model, for every partition of the text into pieces and every chunk size *)
+Corollary py_table_roundtrip fl pol dlm ls c rows cs ps :
+  (1 <= cs)%nat -> Forall nonempty ps -> concat ps = emit ls (written fl pol dlm rows) ->
+  c_rfc c = is_rfc pol -> line_sep ls ->
+  good_dlm pol dlm = true -> dlm_nl_free pol dlm = true ->
+  table_ok pol dlm (enc_code (c_enc c)) rows = true ->
+  no_comment_rows c (written fl pol dlm rows) = true ->
+  run_py (smart_split pol dlm false) c cs ps = ok_result c (map (map nl_norm) rows) (physical_lines (written fl pol dlm rows)).
+Proof.
+  intros Hcs Hne Hps Hrfc Hls G Hd Hok Hcm. rewrite (py_records _ c cs ps Hcs Hne), Hps.
+  apply table_roundtrip_any; assumption.
+Qed.
+Print Assumptions py_table_roundtrip.
+
+(* ------------------------------------------------------------------ the field-count warning *)
+
+Lemma insert_by_nr_length x l : length (insert_by_nr x l) = S (length l).
+Proof.
+  induction l as [|y t IH]; [reflexivity|]. cbn [insert_by_nr]. destruct (snd x <? snd y)%nat; cbn [length]; [reflexivity|].
+  rewrite IH. reflexivity.
+Qed.
+
+Lemma sort_by_nr_length l : length (sort_by_nr l) = length l.
+Proof.
+  unfold sort_by_nr. induction l as [|x l IH]; [reflexivity|]. cbn [fold_right length]. rewrite insert_by_nr_length, IH. reflexivity.
+Qed.
+
+Lemma fields_warning_none finfo : fields_warning finfo = None <-> (length finfo <= 1)%nat.
+Proof.
+  unfold fields_warning. rewrite <- (sort_by_nr_length finfo).
+  destruct (sort_by_nr finfo) as [|[n1 r1] [|[n2 r2] t]]; cbn [length]; split; intros H; try reflexivity; try lia; discriminate.
+Qed.
+
+Definition same_length (lens : list nat) : bool :=
+  match lens with [] => true | n :: r => forallb (Nat.eqb n) r end.
+
+Lemma fields_info_add_len finfo n nr : (length finfo <= length (fields_info_add finfo n nr))%nat.
+Proof. unfold fields_info_add. destruct (existsb _ finfo); [lia|]. rewrite app_length. cbn [length]. lia. Qed.
+
+Lemma finfo_run_mono lens : forall nr finfo, (length finfo <= length (finfo_run nr finfo lens))%nat.
+Proof.
+  induction lens as [|n r IH]; intros nr finfo; cbn [finfo_run]; [lia|].
+  eapply Nat.le_trans; [apply (fields_info_add_len finfo n (S nr))|apply IH].
+Qed.
+
+Lemma finfo_run_single n k lens : forall nr,
+  (length (finfo_run nr [(n, k)] lens) <= 1)%nat <-> forallb (Nat.eqb n) lens = true.
+Proof.
+  induction lens as [|m r IH]; intros nr; cbn [finfo_run forallb].
+  - split; [reflexivity|cbn; lia].
+  - unfold fields_info_add. cbn [existsb fst]. rewrite orb_false_r. destruct (Nat.eqb n m) eqn:E; cbn [andb].
+    + apply IH.
+    + cbn [app]. split; [|discriminate]. intros H. pose proof (finfo_run_mono r (S nr) [(n, k); (m, S nr)]) as M.
+      cbn [length] in M. lia.
+Qed.
+
+(* the warning 'Number of fields in input table is not consistent' is absent iff all records have the same number of fields *)
+Theorem fields_warning_iff lens : fields_warning (finfo_run 0 [] lens) = None <-> same_length lens = true.
+Proof.
+  destruct lens as [|n r]; [split; reflexivity|]. cbn [finfo_run same_length]. unfold fields_info_add. cbn [existsb app].
+  rewrite fields_warning_none. apply finfo_run_single.
+Qed.
+
+Corollary ok_result_warnings c recs nl :
+  exists rs h w nr, ok_result c recs nl = ROk rs h w nl nr /\ w_bom w = false /\ w_defective w = None /\
+    (w_fields w = None <-> same_length (map (@length str) recs) = true).
+Proof.
+  unfold ok_result. do 4 eexists. split; [reflexivity|]. cbn [mk_warnings w_bom w_defective w_fields].
+  split; [reflexivity|]. split; [reflexivity|]. apply fields_warning_iff.
+Qed.
+
+(* ------------------------------------------------------------------ REFUTED: good_dlm && table_ok alone
+   A delimiter that contains LF or CR satisfies good_dlm (simple, quoted, quoted_rfc), every row of separator-free fields
+   satisfies table_ok, and the written line is cut in two by the reader.  The real implementations behave the same
+   (rbql_csv.CSVWriter / CSVRecordIterator, delim LF: [[a, b]] is written as a LF b LF and read back as [[a], [b]]).
+   Hence the hypothesis dlm_nl_free of the theorems above; CsvSpec.table_ok (or good_dlm) does not include it. *)
+Lemma table_roundtrip_nl_dlm_refuted :
+  let a := 97%N in let b := 98%N in
+  let rows := [[[a]; [b]]] in
+  let w0 := {| w_bom := false; w_defective := None; w_fields := None |} in
+  (good_dlm Simple [LF] = true /\ table_ok Simple [LF] 0 rows = true /\
+   records_of_text (smart_split Simple [LF] false) (plain_cfg false false EncNone) (emit [LF] (written LPy Simple [LF] rows))
+   = ROk [[[a]]; [[b]]] None w0 2 2) /\
+  (good_dlm Quoted [CR] = true /\ table_ok Quoted [CR] 0 rows = true /\
+   records_of_text (smart_split Quoted [CR] false) (plain_cfg false false EncNone) (emit [LF] (written LJs Quoted [CR] rows))
+   = ROk [[[a]]; [[b]]] None w0 2 2) /\
+  (good_dlm QuotedRfc [a; LF; b] = true /\ table_ok QuotedRfc [a; LF; b] 0 rows = true /\
+   records_of_text (smart_split QuotedRfc [a; LF; b] false) (plain_cfg true false EncNone)
+                   (emit [CR; LF] (written LPy QuotedRfc [a; LF; b] rows))
+   = ROk [[[a; a]]; [[b; b]]] None w0 2 2).
+Proof. vm_compute. repeat split. Qed.
+Print Assumptions fields_warning_iff.
+Print Assumptions table_roundtrip_nl_dlm_refuted.
+
+(* ------------------------------------------------------------------ non-vacuity: concrete tables *)
+
+Module Examples.
+  Definition a := 97%N. Definition b := 98%N. Definition d := 100%N. Definition e := 101%N. Definition f := 102%N.
+  Definition SEMI := 59%N.
+
+  (* simple, "," , LF *)
+  Definition rows_simple : list (list str) := [[[a]; [b; QT]]; [[]]; [[d]; []; [e]]].
+  Example ex_simple :
+    records_of_text (smart_split Simple [COMMA] false) (plain_cfg false false EncUtf8)
+                    (emit [LF] (written LJs Simple [COMMA] rows_simple))
+    = ROk rows_simple None {| w_bom := false; w_defective := None; w_fields := Some (1, 2, 2, 1)%nat |} 3 3.
+  Proof.
+    rewrite (table_roundtrip LJs Simple [COMMA] [LF] (plain_cfg false false EncUtf8) rows_simple);
+      [vm_compute; reflexivity|discriminate|reflexivity|left; reflexivity|reflexivity|reflexivity|vm_compute; reflexivity|reflexivity].
+  Qed.
+
+  (* quoted, two-character delimiter ";;", CRLF, header: fields with the delimiter, a quote, a lone ";" and leading spaces *)
+  Definition hdr_quoted : list str := [[a; SEMI; SEMI; b]; [d]].
+  Definition rows_quoted : list (list str) := [[[QT; a; QT]; [SEMI]]; [[SP; e]; [f; SP]]].
+  Example ex_quoted :
+    records_of_text (smart_split Quoted [SEMI; SEMI] false) (plain_cfg false true EncLatin1)
+                    (emit [CR; LF] (written LPy Quoted [SEMI; SEMI] (hdr_quoted :: rows_quoted)))
+    = ROk rows_quoted (Some hdr_quoted) {| w_bom := false; w_defective := None; w_fields := None |} 3 3.
+  Proof.
+    rewrite (table_roundtrip LPy Quoted [SEMI; SEMI] [CR; LF] (plain_cfg false true EncLatin1) (hdr_quoted :: rows_quoted));
+      [vm_compute; reflexivity|discriminate|reflexivity|right; left; reflexivity|reflexivity|reflexivity|vm_compute; reflexivity|reflexivity].
+  Qed.
+
+  (* whitespace: an empty record is an empty line *)
+  Definition rows_ws : list (list str) := [[[a]; [b; QT]]; []; [[d]]].
+  Example ex_whitespace :
+    records_of_text (smart_split Whitespace [SP] false) (plain_cfg false false EncNone)
+                    (emit [LF] (written LPy Whitespace [SP] rows_ws))
+    = ROk rows_ws None {| w_bom := false; w_defective := None; w_fields := Some (1, 2, 2, 0)%nat |} 3 3.
+  Proof.
+    rewrite (table_roundtrip LPy Whitespace [SP] [LF] (plain_cfg false false EncNone) rows_ws);
+      [vm_compute; reflexivity|discriminate|reflexivity|left; reflexivity|reflexivity|reflexivity|vm_compute; reflexivity|reflexivity].
+  Qed.
+
+  (* monocolumn: the delimiter is irrelevant (here it even contains LF) *)
+  Definition rows_mono : list (list str) := [[[a; SP; QT; b]]; [[]]; [[COMMA]]].
+  Example ex_monocolumn :
+    records_of_text (smart_split Monocolumn [LF] false) (plain_cfg false false EncUtf8)
+                    (emit [CR; LF] (written LJs Monocolumn [LF] rows_mono))
+    = ROk rows_mono None {| w_bom := false; w_defective := None; w_fields := None |} 3 3.
+  Proof.
+    rewrite (table_roundtrip LJs Monocolumn [LF] [CR; LF] (plain_cfg false false EncUtf8) rows_mono);
+      [vm_compute; reflexivity|discriminate|reflexivity|right; left; reflexivity|reflexivity|reflexivity|vm_compute; reflexivity|reflexivity].
+  Qed.
+
+  (* quoted_rfc, ";;", CRLF: a field with CR LF and a quote, a field with a lone CR; 2 records on 4 physical lines.
+     The real Python writer (delim ;; policy quoted_rfc, line_separator CRLF) writes exactly ex_rfc_written and
+     CSVRecordIterator reads back the records below, NL = 4, NR = 2, record 1 -> 2 fields, record 2 -> 1 fields *)
+  Definition rows_rfc : list (list str) := [[[a; CR; LF; b; QT; 99%N]; [d]]; [[e; CR; f]]].
+  Example ex_rfc_written :
+    written LPy QuotedRfc [SEMI; SEMI] rows_rfc = [[QT; a; CR; LF; b; QT; QT; 99%N; QT; SEMI; SEMI; d]; [QT; e; CR; f; QT]].
+  Proof. reflexivity. Qed.
+  Example ex_rfc :
+    records_of_text (smart_split QuotedRfc [SEMI; SEMI] false) (plain_cfg true false EncUtf8)
+                    (emit [CR; LF] (written LPy QuotedRfc [SEMI; SEMI] rows_rfc))
+    = ROk [[[a; LF; b; QT; 99%N]; [d]]; [[e; LF; f]]] None
+          {| w_bom := false; w_defective := None; w_fields := Some (1, 2, 2, 1)%nat |} 4 2.
+  Proof.
+    rewrite (table_roundtrip_rfc LPy [SEMI; SEMI] [CR; LF] (plain_cfg true false EncUtf8) rows_rfc);
+      [vm_compute; reflexivity|reflexivity|right; left; reflexivity|reflexivity|reflexivity|vm_compute; reflexivity|reflexivity].
+  Qed.
+  (* the same by plain evaluation of the models *)
+  Example ex_rfc_eval :
+    records_of_text (smart_split QuotedRfc [SEMI; SEMI] false) (plain_cfg true false EncUtf8)
+                    (emit [CR; LF] (written LPy QuotedRfc [SEMI; SEMI] rows_rfc))
+    = ROk [[[a; LF; b; QT; 99%N]; [d]]; [[e; LF; f]]] None
+          {| w_bom := false; w_defective := None; w_fields := Some (1, 2, 2, 1)%nat |} 4 2.
+  Proof. vm_compute. reflexivity. Qed.
+
+  (* quoted_rfc with a lone CR as line separator: a field ending with CR, an empty first field, a field that is one LF.
+     The real Python writer/reader pair gives the same: text  QT a CR QT , b CR , x CR QT LF QT CR ; NL = 5, NR = 3 *)
+  Definition rows_rfc_cr : list (list str) := [[[a; CR]; [b]]; [[]; [120%N]]; [[LF]]].
+  Example ex_rfc_cr :
+    records_of_text (smart_split QuotedRfc [COMMA] false) (plain_cfg true false EncNone)
+                    (emit [CR] (written LJs QuotedRfc [COMMA] rows_rfc_cr))
+    = ROk [[[a; LF]; [b]]; [[]; [120%N]]; [[LF]]] None
+          {| w_bom := false; w_defective := None; w_fields := Some (1, 2, 3, 1)%nat |} 5 3.
+  Proof.
+    rewrite (table_roundtrip_rfc LJs [COMMA] [CR] (plain_cfg true false EncNone) rows_rfc_cr);
+      [vm_compute; reflexivity|reflexivity|right; right; reflexivity|reflexivity|reflexivity|vm_compute; reflexivity|reflexivity].
+  Qed.
+
+  (* through the writer model: None, an integer and a list cell; header given *)
+  Definition w_header : list cell := [CStr [a]; CStr [b]].
+  Definition w_rows : list (list cell) := [[CNone; CInt (-12)%Z]; [CList [CStr [d]; CInt 7%Z]; CStr [e; LF; QT]]].
+  Example ex_writer :
+    exists lines nf df,
+      write_table LJs QuotedRfc [COMMA] (Some w_header) w_rows = (lines, None, nf, df) /\
+      records_of_text (smart_split QuotedRfc [COMMA] false) (plain_cfg true true EncUtf8) (emit [LF] lines)
+      = ROk [[[]; [45%N; 49%N; 50%N]]; [[d; 124%N; 55%N]; [e; LF; QT]]] (Some [[a]; [b]])
+            {| w_bom := false; w_defective := None; w_fields := None |} 4 3.
+  Proof.
+    destruct (write_table LJs QuotedRfc [COMMA] (Some w_header) w_rows) as [[[lines e0] nf] df] eqn:E.
+    assert (e0 = None) as -> by (vm_compute in E; congruence).
+    exists lines, nf, df. split; [reflexivity|].
+    rewrite (writer_reader_roundtrip LJs QuotedRfc [COMMA] [LF] (plain_cfg true true EncUtf8) (Some w_header) w_rows lines nf df E);
+      [|reflexivity|left; reflexivity|reflexivity|reflexivity|vm_compute; reflexivity|apply no_comment_none; reflexivity].
+    vm_compute in E. injection E as <- _ _. vm_compute. reflexivity.
+  Qed.
+End Examples.
